@@ -587,6 +587,43 @@ func c17Register(c *Ctx, p *Prog, m *Model) {
 			}
 		}
 	}
+	// a value in use is REFUSED: every return reached on the hit edge of the value test carries a non-nil error (an
+	// "already registered, fine" success would drop the options of the second call and still report success)
+	for _, b := range rl.Blocks {
+		iff := ifOf(b)
+		if iff == nil {
+			continue
+		}
+		cond, neg := normCond(iff.Cond)
+		bo, ok := cond.(*ssa.BinOp)
+		if !ok || bo.Op != token.EQL {
+			continue
+		}
+		gx, okx := elemOfGlobal(bo.X)
+		gy, oky := elemOfGlobal(bo.Y)
+		if !((okx && gx == "allLevels") || (oky && gy == "allLevels")) {
+			continue
+		}
+		hit := 0
+		if neg {
+			hit = 1
+		}
+		rets, _ := exitBlocks(rl)
+		var okRet []string
+		for _, rb := range rets {
+			if !edgeDominates(b, hit, rb) {
+				continue
+			}
+			ret := rb.Instrs[len(rb.Instrs)-1].(*ssa.Return)
+			for _, res := range ret.Results {
+				if k, isC := res.(*ssa.Const); isC && k.IsNil() && types.Identical(res.Type(), types.Universe.Lookup("error").Type()) {
+					okRet = append(okRet, p.Pos(instrPos(ret)))
+				}
+			}
+		}
+		r.Check(len(okRet) == 0, "R17.3", "refusal:value-hit-fails", p.Pos(instrPos(iff)), "every return on the hit edge of the value test reports an error",
+			"RegisterLevel can report success (return at "+strings.Join(okRet, ", ")+") although the value is already in use: the second registration's title, tags, treated-as level and device are silently dropped while the caller is told it worked")
+	}
 	_ = lv
 	_ = title
 	// every further name a registration puts into the parse table (aliases, tags used as names ...) was tested to be
